@@ -76,6 +76,7 @@ def cases(rng, tier):
                     "ins_pos": rng.randint(1, len(prog)), "ins_var": rng.randint(0, max(0, nvars - 1)),
                     "ins_kind": rng.choice(["read", "read_sum"])})
     out += _float_cases(rng, 400 if tier == "quick" else 6000)
+    out += _mask_cases(rng, 300 if tier == "quick" else 4000)
     return out
 
 
@@ -164,14 +165,96 @@ def _run_float(q, with_reads):
     return obs
 
 
+MASK_READS = ["index", "nonzero", "np.nonzero", "where", "subset", "sum", "tolist", "any"]
+MASK_WRITES = ["self", "row", "all", "ravel", "buffer", "iand", "ixor", "out"]
+
+
+def _mask_cases(rng, n):
+    """boolean arrays used as masks: read-only uses of the mask (a[mask], nonzero, where, ...) before the mask's cells change
+    through some other route than mask[...] = (a row view, the flat view, an in-place operator, out=); what the mask selects
+    afterwards must not depend on the earlier reads"""
+    out = []
+    for _ in range(n):
+        lens = [rng.randint(0, 4) for _ in range(rng.randint(1, 5))]
+        if sum(lens) == 0:
+            lens[0] = 2
+        bits = [[rng.random() < 0.6 for _ in range(l)] for l in lens]
+        cand = [(i, j) for i, l in enumerate(lens) for j in range(l)]
+        out.append({"mk": {"lens": lens, "bits": bits, "before": [rng.choice(MASK_READS) for _ in range(rng.randint(1, 3))],
+                           "write": rng.choice(MASK_WRITES), "pos": list(rng.choice(cand)), "flip": [[rng.random() < 0.4 for _ in range(l)] for l in lens],
+                           "between": [rng.choice(MASK_READS) for _ in range(rng.randint(0, 2))]}})
+    return out
+
+
+def _run_mask(q, with_reads):
+    import numpy as np
+    from npstructures import RaggedArray
+    lens = q["lens"]
+    n = sum(lens)
+    a = RaggedArray(np.arange(10, 10 + n), lens)
+    data = np.array([b for r in q["bits"] for b in r], dtype=bool)
+    mask = RaggedArray(data, lens)
+    other = RaggedArray(np.array([b for r in q["flip"] for b in r], dtype=bool), lens)
+    i, j = q["pos"]
+    flat = sum(lens[:i]) + j
+    def read(kind):
+        if kind == "index": a[mask]
+        elif kind == "nonzero": mask.nonzero()
+        elif kind == "np.nonzero": np.nonzero(mask)
+        elif kind == "where": np.where(mask, a, 0)
+        elif kind == "subset": a.subset(mask)
+        elif kind == "sum": mask.sum(axis=-1)
+        elif kind == "tolist": mask.tolist()
+        elif kind == "any": mask.any(axis=-1)
+    def reads(kinds):
+        if with_reads:
+            for k in kinds:
+                try:
+                    read(k)
+                except Exception:
+                    pass
+    def write():
+        m = mask
+        w = q["write"]
+        v = not bool(data[flat])
+        if w == "self": m[i, j] = v
+        elif w == "row": m[i][j] = v
+        elif w == "all":
+            b = m[...]; b[i, j] = v
+        elif w == "ravel": m.ravel()[flat] = v
+        elif w == "buffer": data[flat] = v
+        elif w == "iand": m &= other
+        elif w == "ixor": m ^= other
+        elif w == "out": np.logical_or(m, other, out=m)
+    reads(q["before"])
+    write()
+    reads(q["between"])
+    obs = []
+    for f in (lambda: [int(x) for x in a[mask]], lambda: [[int(x) for x in t] for t in mask.nonzero()], lambda: a.subset(mask).tolist(),
+              lambda: np.where(mask, a, 0).tolist(), lambda: mask.tolist()):
+        try:
+            obs.append(f())
+        except Exception:
+            obs.append({"k": "refuse"})
+    b = RaggedArray(np.arange(10, 10 + n), lens)
+    try:
+        b[mask] = -1
+        obs.append(b.tolist())
+    except Exception:
+        obs.append({"k": "refuse"})
+    return obs
+
+
 def key(p):
+    if "mk" in p:
+        return engine.stable_hash(p)
     if "fl" in p:
         return engine.stable_hash(p)
     return engine.stable_hash([p["prog"], p["extra"]])
 
 
 def nontrivial(p):
-    if "fl" in p:
+    if "fl" in p or "mk" in p:
         return True
     kinds = [s["s"] for s in p["prog"]]
     return "assign" in kinds and "select" in kinds
@@ -179,8 +262,10 @@ def nontrivial(p):
 
 def distribution(ps):
     fl = [p for p in ps if "fl" in p]
-    ps = [p for p in ps if "fl" not in p]
-    return {"float_alias_write_cases": len(fl), "float_alias_kinds": gens.hist(p["fl"]["alias"] for p in fl),
+    mk = [p for p in ps if "mk" in p]
+    ps = [p for p in ps if "fl" not in p and "mk" not in p]
+    return {"mask_alias_write_cases": len(mk), "mask_write_kinds": gens.hist(p["mk"]["write"] for p in mk),
+            "float_alias_write_cases": len(fl), "float_alias_kinds": gens.hist(p["fl"]["alias"] for p in fl),
             "float_written_values": gens.hist(str(p["fl"]["val"]) for p in fl),
             "statements": gens.hist(s["s"] for p in ps for s in p["prog"]),
             "extra_read_kinds": gens.hist(k for p in ps for lst in p["extra"].values() for _, k in lst),
@@ -189,6 +274,13 @@ def distribution(ps):
 
 
 def run_impl(p):
+    if "mk" in p:
+        def hm():
+            plain = _run_mask(p["mk"], False)
+            withreads = _run_mask(p["mk"], True)
+            return {"k": "obs", "equal": {"k": "py", "v": plain == withreads},
+                    "detail": {"k": "py", "v": None if plain == withreads else [plain, withreads]}}
+        return guarded(hm)
     if "fl" in p:
         def h():
             import numpy as np
@@ -209,6 +301,8 @@ def run_impl(p):
 
 
 def oracle(p):
+    if "mk" in p:
+        return {"k": "obs", "equal": {"k": "py", "v": True}}
     if "fl" in p:
         return {"k": "obs", "equal": {"k": "py", "v": True}}
     ref = proggen.run_ref(p["prog"])
@@ -222,7 +316,7 @@ def _ins_prog(p):
 
 
 def lean_request(p):
-    if "fl" in p:
+    if "fl" in p or "mk" in p:
         return None
     # the Lean model runs the history with ONE extra read statement inserted; its observation is dropped afterwards
     from props import c06
